@@ -3,6 +3,7 @@
   (in particular ℂ), every tree of any depth, every admissible offset.
 -/
 import PercevalModel.Lemmas.C01
+import PercevalModel.Lemmas.C01Reg
 import PercevalModel.Num.GQ
 
 open Matrix
@@ -559,6 +560,342 @@ example : exWorld.heap.Ok ∧ 0 < exWorld.heap.size ∧
     (Op.merge (R := Bool → GQ) 0 1 0).ok exWorld.heap = true := by
   refine ⟨wexec_ok _ _ Heap.empty_ok, ?_⟩
   decide +kernel
+
+/-! ## the per-circuit parameter registry (`_params`), `assign`, undefined parameters, `copy(subs=…)`
+
+Model: `Model/C01Reg.lean` (`RState`: the pool and the store of parameter values of `World`, plus the
+registry of every pool entry, the variable slots of the leaves and the `Parameter` allocation counter). -/
+
+section registry
+variable {V S : Type} [Zero S] [One S]
+
+/-- After ANY history (failed `add`s included) the names of a registry are pairwise distinct and the
+pool invariant holds: `vars`, `param(name)`, `assign` address one `Parameter` per name. -/
+theorem registry_names_distinct_after_any_history (e : PEnv V) (next : ℕ) (ops : List (ROp V S)) (i : ℕ) :
+    (((rexec (RState.empty e next) ops).reg i).map (·.name)).Nodup :=
+  (rexec_inv ops _ (empty_inv e next)).nodup i
+
+/-- After any history in which no `add` raised the duplicate-name `RuntimeError`: every registered
+parameter drives a slot of a leaf reachable from the circuit (nothing stale in `_params`). -/
+theorem registry_subset_reachable (e : PEnv V) (next : ℕ) (ops : List (ROp V S))
+    (hclean : CleanRun (RState.empty e next) ops) (i : ℕ) (v : Var) :
+    v ∈ (rexec (RState.empty e next) ops).reg i → Occ (rexec (RState.empty e next) ops).pit i v :=
+  rexec_regSub ops _ (empty_inv e next) (fun i v h => ((empty_regExact e next) i v).mp h) hclean i v
+
+/-- After any history in which, in addition, no circuit received a component while it was held by
+reference by another circuit: the registry of every circuit is EXACTLY the set of variable parameters
+of the leaves reachable from it.  (Both hypotheses are necessary: witnesses below.) -/
+theorem registry_exact (e : PEnv V) (next : ℕ) (ops : List (ROp V S))
+    (hclean : CleanRun (RState.empty e next) ops) (hsafe : SafeRun (RState.empty e next) ops)
+    (i : ℕ) (v : Var) :
+    v ∈ (rexec (RState.empty e next) ops).reg i ↔ Occ (rexec (RState.empty e next) ops).pit i v :=
+  rexec_regExact ops _ (empty_inv e next) (empty_regExact e next) hclean hsafe i v
+
+/-- … and then a name identifies one `Parameter` among everything reachable from the circuit (the
+purpose of the duplicate-name check) -/
+theorem reachable_name_determines_parameter {s : RState V S} (hinv : RInv s) (hex : RegExact s)
+    (i : ℕ) (v w : Var) (hv : Occ s.pit i v) (hw : Occ s.pit i w) (hn : v.name = w.name) : v = w := by
+  have h1 := regLookup_of_mem (hinv.nodup i) ((hex i v).mpr hv)
+  have h2 := regLookup_of_mem (hinv.nodup i) ((hex i w).mpr hw)
+  rw [hn, h2] at h1
+  exact (Option.some.inj h1).symm
+
+/-- the executable traversal (what the driver reports and the harness compares with the iteration of the
+real circuit) is reachability, after any history -/
+theorem occ_iff_reachable (e : PEnv V) (next : ℕ) (ops : List (ROp V S)) (i : ℕ) (v : Var) :
+    v ∈ (rexec (RState.empty e next) ops).occ i ↔ Occ (rexec (RState.empty e next) ops).pit i v :=
+  mem_occ_iff (rexec_inv ops _ (empty_inv e next)) i v
+
+/-! ### `assign` / `compute_unitary(assign=…)` -/
+
+/-- `assign({name: x})` on a circuit whose registry is exact sets exactly the reachable parameter of that
+name (and nothing else); the structure is untouched -/
+theorem assign_reaches_reachable {s : RState V S} (hinv : RInv s) (hex : RegExact s) (i : ℕ) (v : Var)
+    (hv : Occ s.pit i v) (x : V) :
+    rstep s (.assign i [(v.name, x)]) =
+      ({ s with w := { s.w with env := s.w.env.upd v.pid (some x) } }, .ok) := by
+  have h1 := regLookup_of_mem (hinv.nodup i) ((hex i v).mpr hv)
+  simp [rstep, assignMany, h1]
+
+/-- … and raises `KeyError`, changing nothing, when no reachable leaf has a parameter of that name -/
+theorem assign_unknown_name {s : RState V S} (hex : RegExact s) (i n : ℕ)
+    (hn : ∀ v, Occ s.pit i v → v.name ≠ n) (x : V) :
+    rstep s (.assign i [(n, x)]) = (s, .key) := by
+  have h1 : regLookup (s.reg i) n = none := by
+    cases h : regLookup (s.reg i) n with
+    | none => rfl
+    | some w =>
+      obtain ⟨hm, hw⟩ := regLookup_some h
+      exact absurd hw (hn w ((hex i w).mp hm))
+  simp [rstep, assignMany, h1]
+
+/-- in general `assign` reads the registry only: a bound name reaches the registered object, an unbound
+name stops the loop (`KeyError`) and keeps what was assigned before -/
+theorem assignMany_cons (reg : List Var) (e : PEnv V) (n : ℕ) (x : V) (r : List (ℕ × V)) :
+    assignMany reg e ((n, x) :: r) =
+      match regLookup reg n with
+      | some v => assignMany reg (e.upd v.pid (some x)) r
+      | none => (e, false) := rfl
+
+end registry
+
+section evaluation
+variable {V S : Type} [CommRing S]
+
+/-- `compute_unitary()` raises (a leaf's `assert self.defined`) exactly when a parameter of a reachable
+leaf has no value -/
+theorem reval_none_iff {s : RState V S} (hinv : RInv s) (i : ℕ) :
+    s.reval i = none ↔ ∃ v, Occ s.pit i v ∧ s.w.env v.pid = none := by
+  unfold RState.reval RState.evalOk
+  constructor
+  · intro h
+    split at h
+    · cases h
+    · next hne =>
+      simp only [List.all_eq_true, not_forall] at hne
+      obtain ⟨v, hv, hd⟩ := hne
+      refine ⟨v, (mem_occ_iff hinv i v).mp hv, ?_⟩
+      simpa using hd
+  · rintro ⟨v, hv, hd⟩
+    have : ¬ ((s.occ i).all fun v => (s.w.env v.pid).isSome) = true := by
+      simp only [List.all_eq_true, not_forall]
+      exact ⟨v, (mem_occ_iff hinv i v).mpr hv, by simp [hd]⟩
+    simp [this]
+
+/-- when it does not raise, the matrix is the ordered product of the leaves' matrices under the current
+store of parameter values, on the ranges iteration reports — after any history of the registry machine
+(structural operations, failed adds, copies with substitution, `set_value`, `reset`, `assign`) -/
+theorem reval_after_any_history (e : PEnv V) (next : ℕ) (ops : List (ROp V S)) (i : ℕ)
+    (M : Matrix (Fin ((rexec (RState.empty e next) ops).w.heap.msize i))
+      (Fin ((rexec (RState.empty e next) ops).w.heap.msize i)) S)
+    (h : (rexec (RState.empty e next) ops).reval i = some M) :
+    let s := rexec (RState.empty e next) ops
+    M = prodFlat (s.w.heap.msize i) (Flat.mapC (atEnv s.w.env) (flatten (snapshot s.w.heap i))) ∧
+      Flat.Fits (flatten (snapshot s.w.heap i)) (s.w.heap.msize i) := by
+  intro s
+  have hOk : s.w.heap.Ok := (rexec_inv ops _ (empty_inv e next)).heapOk
+  have hw : (snapshotItems s.w.heap i).WF (s.w.heap.msize i) := resolveIt_WF hOk _ i
+  unfold RState.reval at h
+  split at h
+  · cases h
+    exact ⟨(observe_eq_prod_flatten s.w hOk i).2, (prodItems_eq_prod_flatten _ _ hw).2⟩
+  · cases h
+
+/-- `compute_unitary(assign=a)` = `assign(a)` followed by `compute_unitary()`: the evaluation is the one of
+the same pool under the updated store -/
+theorem assign_then_eval (s : RState V S) (i : ℕ) (a : List (ℕ × V)) :
+    (rstep s (.assign i a)).1.w.heap = s.w.heap ∧
+      (rstep s (.assign i a)).1.w.env = (assignMany (s.reg i) s.w.env a).1 ∧
+      (rstep s (.assign i a)).1.pit = s.pit ∧ (rstep s (.assign i a)).1.reg = s.reg :=
+  ⟨rfl, rfl, rfl, rfl⟩
+
+end evaluation
+
+/-! ### `copy()` / `copy(subs=σ)` with undefined parameters -/
+
+section copy
+variable {V S : Type}
+
+/-- the exact failure set: the nested `add` calls of `Circuit.copy` raise `RuntimeError` iff two slots
+(of one leaf, of two leaves, of one component met twice) that stay variable — no value at copy time, symbol
+not substituted — carry the same name -/
+theorem copy_fails_iff [Zero S] [One S] (s : RState V S) (i : ℕ) (σ : ℕ → Option V) (hi : i < s.size) :
+    (rstep s (.copy i σ)).2 = .runtime ↔
+      ¬ (remNames (keepVar s.w.env σ) s.pit (s.w.heap.rank i + 1) i).Nodup := by
+  simp only [rstep, hi, if_true]
+  rw [copyNames_eq]
+  by_cases hnd : (remNames (keepVar s.w.env σ) s.pit (s.w.heap.rank i + 1) i).Nodup
+  · simp [hnd]
+  · simp [hnd]
+
+/-- a failed copy changes nothing -/
+theorem copy_failure_no_effect [Zero S] [One S] (s : RState V S) (i : ℕ) (σ : ℕ → Option V)
+    (h : (rstep s (.copy i σ)).2 ≠ .ok) : (rstep s (.copy i σ)).1 = s := by
+  simp only [rstep] at h ⊢
+  split
+  · split
+    · rfl
+    · next hi _ names hn => simp [hi, hn] at h
+  · rfl
+
+/-- a successful copy registers one new `Parameter` per slot left variable, in iteration order -/
+theorem copy_registry [Zero S] [One S] (s : RState V S) (i : ℕ) (σ : ℕ → Option V) (hi : i < s.size)
+    (hnd : (remNames (keepVar s.w.env σ) s.pit (s.w.heap.rank i + 1) i).Nodup) :
+    (rstep s (.copy i σ)).2 = .ok ∧
+      (rstep s (.copy i σ)).1.reg s.size =
+        freshVars s.next (remNames (keepVar s.w.env σ) s.pit (s.w.heap.rank i + 1) i) ∧
+      (rstep s (.copy i σ)).1.next =
+        s.next + (remNames (keepVar s.w.env σ) s.pit (s.w.heap.rank i + 1) i).length := by
+  simp only [rstep, hi, if_true]
+  rw [copyNames_eq, if_pos hnd]
+  exact ⟨rfl, updAt_self _ _ _, rfl⟩
+
+/-- `copy(subs=σ)` then evaluation under a store `ρ` = evaluation of the original (as it was at copy time)
+under `rebind … ρ`: for every store, every nesting, every leaf -/
+theorem copy_subs_eval [Zero S] [One S] (s : RState V S) (hinv : RInv s) (i : ℕ) (σ : ℕ → Option V)
+    (hi : i < s.size) (hok : (rstep s (.copy i σ)).2 = .ok) (ρ : PEnv V) :
+    (snapshot (rstep s (.copy i σ)).1.w.heap s.size).map (atEnv ρ) =
+      (snapshot s.w.heap i).map (atEnv (rebind s.w.env σ (s.occ i)
+        (remNames (keepVar s.w.env σ) s.pit (s.w.heap.rank i + 1) i) s.next ρ)) := by
+  by_cases hnd : (remNames (keepVar s.w.env σ) s.pit (s.w.heap.rank i + 1) i).Nodup
+  · simp only [rstep, hi, if_true]
+    rw [copyNames_eq, if_pos hnd]
+    show (snapshot (step s.w.heap (.copy i _)) s.w.heap.size).map (atEnv ρ) = _
+    rw [snapshot_step_copy hinv.heapOk i _ hi, Comp.map_map]
+    rfl
+  · have := (copy_fails_iff s i σ hi).mpr hnd
+    rw [this] at hok
+    cases hok
+
+/-- … and this stays so after ANY later history that does not add to the copy itself (growth of the
+original, `set_value` on the original's parameters, further copies, failed adds …) -/
+theorem copy_subs_eval_after_any_history [Zero S] [One S] (s : RState V S) (hinv : RInv s) (i : ℕ)
+    (σ : ℕ → Option V) (hi : i < s.size) (hok : (rstep s (.copy i σ)).2 = .ok)
+    (ops : List (ROp V S)) (hops : ∀ op ∈ ops, op.target ≠ some s.size) (ρ : PEnv V) :
+    (snapshot (rexec (rstep s (.copy i σ)).1 ops).w.heap s.size).map (atEnv ρ) =
+      (snapshot s.w.heap i).map (atEnv (rebind s.w.env σ (s.occ i)
+        (remNames (keepVar s.w.env σ) s.pit (s.w.heap.rank i + 1) i) s.next ρ)) := by
+  rw [← copy_subs_eval s hinv i σ hi hok ρ]
+  congr 1
+  have hnd : (remNames (keepVar s.w.env σ) s.pit (s.w.heap.rank i + 1) i).Nodup := by
+    by_contra h
+    rw [(copy_fails_iff s i σ hi).mpr h] at hok
+    cases hok
+  have hheap : (rstep s (.copy i σ)).1.w.heap = step s.w.heap (.copy i fun x ρ =>
+      x (rebind s.w.env σ (s.occ i)
+        (remNames (keepVar s.w.env σ) s.pit (s.w.heap.rank i + 1) i) s.next ρ)) := by
+    simp only [rstep, hi, if_true]
+    rw [copyNames_eq, if_pos hnd]
+    rfl
+  have hsz : s.size < (rstep s (.copy i σ)).1.size := by
+    show s.w.heap.size < (rstep s (.copy i σ)).1.w.heap.size
+    rw [hheap]
+    have : i < s.w.heap.size := hi
+    simp [step, Op.ok, this, applyOp]
+  apply snapshot_closed _ _ _ (rexec_cell_ne ops _ hsz hops)
+  intro p hp j hj
+  rw [hheap] at hp
+  have : i < s.w.heap.size := hi
+  simp only [step, Op.ok, this, decide_true, if_true, applyOp, Heap.items, RState.size,
+    Heap.cell_alloc_self] at hp
+  obtain ⟨q, _, rfl⟩ := List.mem_map.mp hp
+  simp at hj
+
+/-- what `rebind` is: a parameter defined at copy time keeps that value whatever the copy's store says -/
+theorem rebind_defined (e : PEnv V) (σ : ℕ → Option V) (occ : List Var) (names : List ℕ) (next : ℕ)
+    (ρ : PEnv V) (p : ℕ) (x : V) (h : e p = some x) : rebind e σ occ names next ρ p = some x := by
+  simp [rebind, h]
+
+/-- … an undefined parameter whose symbol is substituted has the substituted value -/
+theorem rebind_substituted (e : PEnv V) (σ : ℕ → Option V) (occ : List Var) (names : List ℕ) (next : ℕ)
+    (ρ : PEnv V) (v : Var) (x : V) (h : e v.pid = none)
+    (hocc : occ.find? (fun u => u.pid == v.pid) = some v) (hσ : σ v.name = some x) :
+    rebind e σ occ names next ρ v.pid = some x := by
+  simp [rebind, h, hocc, hσ]
+
+/-- … every other one reads the new `Parameter` created for it (the one registered under its name) -/
+theorem rebind_fresh (e : PEnv V) (σ : ℕ → Option V) (occ : List Var) (names : List ℕ) (next : ℕ)
+    (ρ : PEnv V) (v : Var) (h : e v.pid = none)
+    (hocc : occ.find? (fun u => u.pid == v.pid) = some v) (hσ : σ v.name = none) :
+    rebind e σ occ names next ρ v.pid = ρ (next + names.idxOf v.name) := by
+  simp [rebind, h, hocc, hσ]
+
+/-- the new `Parameter` registered under the `t`-th name has `pid = next + t` -/
+theorem freshVars_getElem : ∀ (names : List ℕ) (next t : ℕ) (ht : t < (freshVars next names).length)
+    (ht' : t < names.length), (freshVars next names)[t] = ⟨next + t, names[t]⟩ := by
+  intro names
+  induction names with
+  | nil => intro _ t _ ht'; simp at ht'
+  | cons n r ih =>
+    intro next t ht ht'
+    cases t with
+    | zero => simp [freshVars]
+    | succ t =>
+      simp only [freshVars, List.getElem_cons_succ]
+      rw [ih (next + 1) t _ (by simpa using ht')]
+      simp [Nat.add_assoc, Nat.add_comm 1 t]
+
+end copy
+
+/-! ### non-vacuity and the witnesses that both hypotheses of `registry_exact` are necessary -/
+
+section witnesses
+
+def vx : Var := ⟨0, 0⟩     -- P("x")
+def vy : Var := ⟨1, 1⟩     -- P("y")
+def vz : Var := ⟨2, 2⟩     -- P("z")
+def vx' : Var := ⟨3, 0⟩    -- another P("x")
+def zeroU (k : ℕ) : Matrix (Fin k) (Fin k) (PEnv ℕ → ℕ) := fun _ _ _ => 0
+def st0 : RState ℕ ℕ := RState.empty (fun _ => none) 4
+
+/-- a clean and safe history: an inner circuit is completed, nested, merged, the outer one copied with a
+substitution; every hypothesis of `registry_exact`, `copy_subs_eval`, `copy_registry` holds on it -/
+def exReg : List (ROp ℕ ℕ) :=
+  [.new 2 2, .new 1 0, .new 1 1, .leaf 1 0 1 [vx] (zeroU 1), .leaf 2 0 1 [vz] (zeroU 1), .nest 0 1 1,
+   .leaf 0 0 2 [vy, vy] (zeroU 2), .merge 0 2 0, .barrier 0,
+   .copy 0 (fun n => if n = 1 then some 7 else none)]
+
+example : CleanRun st0 exReg ∧ SafeRun st0 exReg ∧ (rexec st0 exReg).size = 4 ∧
+    (rexec st0 exReg).reg 0 = [vx, vy, vz] ∧ (rexec st0 exReg).reg 3 = [⟨4, 0⟩, ⟨5, 2⟩] ∧
+    (rstep (rexec st0 (exReg.take 9)) (.copy 0 (fun n => if n = 1 then some 7 else none))).2 = .ok := by
+  refine ⟨?_, ?_, ?_, ?_, ?_, ?_⟩ <;> decide +kernel
+
+/-- the hypotheses of `reachable_name_determines_parameter`, `assign_reaches_reachable` hold there -/
+example : RInv (rexec st0 exReg) ∧ RegExact (rexec st0 exReg) ∧ Occ (rexec st0 exReg).pit 0 vz :=
+  ⟨rexec_inv _ _ (empty_inv _ _),
+   rexec_regExact _ _ (empty_inv _ _) (empty_regExact _ _) (by decide +kernel) (by decide +kernel),
+   occAt_sound _ 3 0 vz (by decide +kernel)⟩
+
+/-- WITNESS 1 (a failed `add` leaves a stale parameter): `c.add(0, PS(x))`, then
+`c.add(0, BS(theta=y, phi_tl=x'))` with another parameter named "x" raises `RuntimeError` in the middle of
+the loop: `y` stays in `c._params` although no leaf of `c` has it. -/
+def exStale : List (ROp ℕ ℕ) :=
+  [.new 2 1, .leaf 0 0 1 [vx] (zeroU 1), .leaf 0 0 2 [vy, vx'] (zeroU 2)]
+
+theorem registry_keeps_parameter_of_failed_add :
+    (rstep (rexec st0 (exStale.take 2)) (.leaf 0 0 2 [vy, vx'] (zeroU 2))).2 = .runtime ∧
+      vy ∈ (rexec st0 exStale).reg 0 ∧ ¬ Occ (rexec st0 exStale).pit 0 vy := by
+  refine ⟨by decide +kernel, by decide +kernel, ?_⟩
+  intro h
+  have := (mem_occ_iff (rexec_inv exStale _ (empty_inv _ _)) 0 vy).mpr h
+  revert this
+  decide +kernel
+
+/-- WITNESS 2 (growth after nesting): `outer.add(0, inner)`, then `inner.add(0, PS(x))`: no error, `x` drives
+a leaf reachable from `outer`, `outer._params` does not know it; `outer.assign({"x": …})` is a `KeyError`. -/
+def exGrow : List (ROp ℕ ℕ) :=
+  [.new 2 1, .new 1 0, .nest 0 1 0, .leaf 1 0 1 [vx] (zeroU 1)]
+
+theorem registry_misses_growth_after_nesting :
+    CleanRun st0 exGrow ∧ Occ (rexec st0 exGrow).pit 0 vx ∧ vx ∉ (rexec st0 exGrow).reg 0 ∧
+      (rstep (rexec st0 exGrow) (.assign 0 [(0, 5)])).2 = .key := by
+  refine ⟨by decide +kernel, ?_, by decide +kernel, by decide +kernel⟩
+  apply occAt_sound _ 2 0 vx
+  decide +kernel
+
+/-- WITNESS 3 (the duplicate-name check is bypassed the same way): `outer.add(0, inner)`,
+`outer.add(0, PS(x))`, `inner.add(0, PS(x'))`: no `RuntimeError`, two different parameters named "x" under
+`outer`; `assign({"x": v})` reaches the first one only. -/
+def exTwo : List (ROp ℕ ℕ) :=
+  [.new 2 1, .new 1 0, .nest 0 1 0, .leaf 0 0 1 [vx] (zeroU 1), .leaf 1 0 1 [vx'] (zeroU 1)]
+
+theorem two_parameters_one_name_after_growth :
+    CleanRun st0 exTwo ∧ Occ (rexec st0 exTwo).pit 0 vx ∧ Occ (rexec st0 exTwo).pit 0 vx' ∧
+      (rexec st0 exTwo).reg 0 = [vx] := by
+  refine ⟨by decide +kernel, ?_, ?_, by decide +kernel⟩
+  · apply occAt_sound _ 2 0 vx; decide +kernel
+  · apply occAt_sound _ 2 0 vx'; decide +kernel
+
+/-- WITNESS 4 (exact failure set of `copy`): one undefined parameter driving two slots makes `copy()` raise;
+with a value, or with its symbol substituted, the copy succeeds -/
+theorem copy_raises_on_shared_undefined_parameter :
+    let s := rexec st0 [.new 2 1, .leaf 0 0 2 [vy, vy] (zeroU 2)]
+    (rstep s (.copy 0 fun _ => none)).2 = .runtime ∧
+      (rstep (rstep s (.setv 1 (some 4))).1 (.copy 0 fun _ => none)).2 = .ok ∧
+      (rstep s (.copy 0 fun n => if n = 1 then some 4 else none)).2 = .ok := by
+  refine ⟨?_, ?_, ?_⟩ <;> decide +kernel
+
+end witnesses
 
 /-
   Outside the model (see manifest.d/C01.json):
